@@ -123,6 +123,14 @@ def check_swap(rep, project, qual):
     # diagonal copies pair with each other at cost 0 (the corner rows [M, M+N) × cols [N, M+N)) and every point can only
     # reach its own diagonal copy — i.e. the four blocks sit where the statement's cost model puts them
     check_tiling(rep, "MI-DIAG", r1, D1, fi)
+    from .distances import leftover_placeholders
+    inexact = [r_ for r_ in (r1, r2) if r_.interp.unmodelled or r_.interp.lossy] or [
+        d_ for d_ in (D1, D2) if getattr(d_, "opaque_stores", None) or leftover_placeholders(d_.base) or unmodelled_in(d_.base)]
+    if inexact:
+        # the matrix the run assembled is not the one the code assembles (a store that was not modelled, a loop the
+        # evaluator could not summarise): comparing it with its transposed counterpart says nothing
+        rep.unmodelled("MI-SWAP", fi, fi.node, "the cost matrix was not followed exactly: exchange of the arguments not compared")
+        return
     if len(D1.stores) != len(D2.stores):
         rep.unmodelled("MI-SWAP", fi, fi.node, "different number of block stores when the arguments are exchanged")
         return
